@@ -15,6 +15,8 @@ EXPLANATION = (
     "called only in the Vacant arm of managed_paths.entry_sync; PathSetTask::drop cancels the token, the task polls "
     "cancelled(), holds only a Weak manager reference and re-upgrades it at every wake-up."
 )
+EXPLANATION_ADD = ' Additions: (ORDER-publish) maybe_update_active_path dominates every notify_waiters in fetch_and_update; (WAIT-no-spin) the only loops in the waiting functions are bare await poll loops.'
+EXPLANATION = EXPLANATION + EXPLANATION_ADD
 RESIDUAL = ["schedule exploration: that the discipline suffices relies on tokio::sync::Notify's contract (a Notified future "
             "created before notify_waiters is woken by it)"]
 ASSUMPTIONS = ["tokio::sync::Notify::notify_waiters wakes every Notified created before the call",
